@@ -595,6 +595,23 @@ func (fv *FV) specField(env *Env, x *SField) Term {
 			return env.results[n]
 		}
 	}
+	// package-qualified name: io.EOF
+	if id, ok := x.X.(*SIdent); ok {
+		if _, bound := env.names[id.Name]; !bound {
+			for path, tp := range fv.w.allTypes {
+				if tp.Name() == id.Name && (path == id.Name || strings.HasSuffix(path, "/"+id.Name)) {
+					if obj := tp.Scope().Lookup(x.Name); obj != nil {
+						if t, ok := fv.globalObj(env.st, obj); ok {
+							return t
+						}
+						if vv, ok := obj.(*types.Var); ok {
+							return fv.pkgVar(env.st, vv)
+						}
+					}
+				}
+			}
+		}
+	}
 	v := fv.spec(env, x.X)
 	if v.Sort == sSlice {
 		switch x.Name {
